@@ -3,6 +3,7 @@ import PcfgVerif.Drive.Omen
 import PcfgVerif.Drive.Expand
 import PcfgVerif.Drive.Loader
 import PcfgVerif.Drive.Sampler
+import PcfgVerif.Drive.EditRules
 /-! Line-protocol driver: one operation per input line, one canonical answer line each. -/
 
 structure DState where
@@ -11,6 +12,7 @@ structure DState where
   exp : Drive.Expand.St := {}
   ld : Drive.Loader.St := {}
   hw : Drive.Sampler.St := {}
+  er : Drive.EditRules.St := {}
 
 def dispatch (s : DState) (line : String) : DState × String :=
   let toks := (line.splitOn " ").filter (· ≠ "")
@@ -32,6 +34,9 @@ def dispatch (s : DState) (line : String) : DState × String :=
     else if cmd.startsWith "hw." then
       let (p, out) := Drive.Sampler.step s.hw s.exp toks
       ({ s with hw := p }, out)
+    else if cmd.startsWith "er." then
+      let (p, out) := Drive.EditRules.step s.er toks
+      ({ s with er := p }, out)
     else (s, "bad-op")
 
 partial def loop (h : IO.FS.Stream) (out : IO.FS.Stream) (s : DState) : IO Unit := do
